@@ -860,30 +860,30 @@ DIRECTED = {
         "__reruns__": 24,
         "t.go": 'package main\n\ntype Config struct {\n\tHost  string\n\tPort  int\n\tTags  []string\n\tExtra map[string]int\n}\n\ntype Server struct{ C Config }\n\nfunc NewServer(c Config) *Server { return &Server{C: c} }\n',
         "main.go": 'package main\n\nfunc main() { s := InitServer(); println(s.C.Host, s.C.Port, len(s.C.Tags), s.C.Extra["y"]) }\n',
-        "filler1.go": 'package main\n\n// filler 1\nvar filler1 = 1\n',
-        "filler2.go": 'package main\n\n// filler 2\nvar filler2 = 2\n',
-        "filler3.go": 'package main\n\n// filler 3\nvar filler3 = 3\n',
-        "filler4.go": 'package main\n\n// filler 4\nvar filler4 = 4\n',
-        "filler5.go": 'package main\n\n// filler 5\nvar filler5 = 5\n',
-        "filler6.go": 'package main\n\n// filler 6\nvar filler6 = 6\n',
-        "filler7.go": 'package main\n\n// filler 7\nvar filler7 = 7\n',
-        "filler8.go": 'package main\n\n// filler 8\nvar filler8 = 8\n',
-        "filler9.go": 'package main\n\n// filler 9\nvar filler9 = 9\n',
+        "filler1.go": 'package main\n\n// Filler1_1 pads file 1.\nvar Filler1_1 = 7\n\n// Filler1_2 pads file 1.\nvar Filler1_2 = 14\n\n// Filler1_3 pads file 1.\nvar Filler1_3 = 21\n',
+        "filler2.go": 'package main\n\n// Filler2_1 pads file 2.\nvar Filler2_1 = 14\n\n// Filler2_2 pads file 2.\nvar Filler2_2 = 28\n\n// Filler2_3 pads file 2.\nvar Filler2_3 = 42\n\n// Filler2_4 pads file 2.\nvar Filler2_4 = 56\n\n// Filler2_5 pads file 2.\nvar Filler2_5 = 70\n\n// Filler2_6 pads file 2.\nvar Filler2_6 = 84\n',
+        "filler3.go": 'package main\n\n// Filler3_1 pads file 3.\nvar Filler3_1 = 21\n\n// Filler3_2 pads file 3.\nvar Filler3_2 = 42\n\n// Filler3_3 pads file 3.\nvar Filler3_3 = 63\n\n// Filler3_4 pads file 3.\nvar Filler3_4 = 84\n\n// Filler3_5 pads file 3.\nvar Filler3_5 = 105\n\n// Filler3_6 pads file 3.\nvar Filler3_6 = 126\n\n// Filler3_7 pads file 3.\nvar Filler3_7 = 147\n\n// Filler3_8 pads file 3.\nvar Filler3_8 = 168\n\n// Filler3_9 pads file 3.\nvar Filler3_9 = 189\n',
+        "filler4.go": 'package main\n\n// Filler4_1 pads file 4.\nvar Filler4_1 = 28\n\n// Filler4_2 pads file 4.\nvar Filler4_2 = 56\n\n// Filler4_3 pads file 4.\nvar Filler4_3 = 84\n\n// Filler4_4 pads file 4.\nvar Filler4_4 = 112\n\n// Filler4_5 pads file 4.\nvar Filler4_5 = 140\n\n// Filler4_6 pads file 4.\nvar Filler4_6 = 168\n\n// Filler4_7 pads file 4.\nvar Filler4_7 = 196\n\n// Filler4_8 pads file 4.\nvar Filler4_8 = 224\n\n// Filler4_9 pads file 4.\nvar Filler4_9 = 252\n\n// Filler4_10 pads file 4.\nvar Filler4_10 = 280\n\n// Filler4_11 pads file 4.\nvar Filler4_11 = 308\n\n// Filler4_12 pads file 4.\nvar Filler4_12 = 336\n',
+        "filler5.go": 'package main\n\n// Filler5_1 pads file 5.\nvar Filler5_1 = 35\n\n// Filler5_2 pads file 5.\nvar Filler5_2 = 70\n\n// Filler5_3 pads file 5.\nvar Filler5_3 = 105\n\n// Filler5_4 pads file 5.\nvar Filler5_4 = 140\n\n// Filler5_5 pads file 5.\nvar Filler5_5 = 175\n\n// Filler5_6 pads file 5.\nvar Filler5_6 = 210\n\n// Filler5_7 pads file 5.\nvar Filler5_7 = 245\n\n// Filler5_8 pads file 5.\nvar Filler5_8 = 280\n\n// Filler5_9 pads file 5.\nvar Filler5_9 = 315\n\n// Filler5_10 pads file 5.\nvar Filler5_10 = 350\n\n// Filler5_11 pads file 5.\nvar Filler5_11 = 385\n\n// Filler5_12 pads file 5.\nvar Filler5_12 = 420\n\n// Filler5_13 pads file 5.\nvar Filler5_13 = 455\n\n// Filler5_14 pads file 5.\nvar Filler5_14 = 490\n\n// Filler5_15 pads file 5.\nvar Filler5_15 = 525\n',
+        "filler6.go": 'package main\n\n// Filler6_1 pads file 6.\nvar Filler6_1 = 42\n\n// Filler6_2 pads file 6.\nvar Filler6_2 = 84\n\n// Filler6_3 pads file 6.\nvar Filler6_3 = 126\n\n// Filler6_4 pads file 6.\nvar Filler6_4 = 168\n\n// Filler6_5 pads file 6.\nvar Filler6_5 = 210\n\n// Filler6_6 pads file 6.\nvar Filler6_6 = 252\n\n// Filler6_7 pads file 6.\nvar Filler6_7 = 294\n\n// Filler6_8 pads file 6.\nvar Filler6_8 = 336\n\n// Filler6_9 pads file 6.\nvar Filler6_9 = 378\n\n// Filler6_10 pads file 6.\nvar Filler6_10 = 420\n\n// Filler6_11 pads file 6.\nvar Filler6_11 = 462\n\n// Filler6_12 pads file 6.\nvar Filler6_12 = 504\n\n// Filler6_13 pads file 6.\nvar Filler6_13 = 546\n\n// Filler6_14 pads file 6.\nvar Filler6_14 = 588\n\n// Filler6_15 pads file 6.\nvar Filler6_15 = 630\n\n// Filler6_16 pads file 6.\nvar Filler6_16 = 672\n\n// Filler6_17 pads file 6.\nvar Filler6_17 = 714\n\n// Filler6_18 pads file 6.\nvar Filler6_18 = 756\n',
+        "filler7.go": 'package main\n\n// Filler7_1 pads file 7.\nvar Filler7_1 = 49\n\n// Filler7_2 pads file 7.\nvar Filler7_2 = 98\n\n// Filler7_3 pads file 7.\nvar Filler7_3 = 147\n\n// Filler7_4 pads file 7.\nvar Filler7_4 = 196\n\n// Filler7_5 pads file 7.\nvar Filler7_5 = 245\n\n// Filler7_6 pads file 7.\nvar Filler7_6 = 294\n\n// Filler7_7 pads file 7.\nvar Filler7_7 = 343\n\n// Filler7_8 pads file 7.\nvar Filler7_8 = 392\n\n// Filler7_9 pads file 7.\nvar Filler7_9 = 441\n\n// Filler7_10 pads file 7.\nvar Filler7_10 = 490\n\n// Filler7_11 pads file 7.\nvar Filler7_11 = 539\n\n// Filler7_12 pads file 7.\nvar Filler7_12 = 588\n\n// Filler7_13 pads file 7.\nvar Filler7_13 = 637\n\n// Filler7_14 pads file 7.\nvar Filler7_14 = 686\n\n// Filler7_15 pads file 7.\nvar Filler7_15 = 735\n\n// Filler7_16 pads file 7.\nvar Filler7_16 = 784\n\n// Filler7_17 pads file 7.\nvar Filler7_17 = 833\n\n// Filler7_18 pads file 7.\nvar Filler7_18 = 882\n\n// Filler7_19 pads file 7.\nvar Filler7_19 = 931\n\n// Filler7_20 pads file 7.\nvar Filler7_20 = 980\n\n// Filler7_21 pads file 7.\nvar Filler7_21 = 1029\n',
+        "filler8.go": 'package main\n\n// Filler8_1 pads file 8.\nvar Filler8_1 = 56\n\n// Filler8_2 pads file 8.\nvar Filler8_2 = 112\n\n// Filler8_3 pads file 8.\nvar Filler8_3 = 168\n\n// Filler8_4 pads file 8.\nvar Filler8_4 = 224\n\n// Filler8_5 pads file 8.\nvar Filler8_5 = 280\n\n// Filler8_6 pads file 8.\nvar Filler8_6 = 336\n\n// Filler8_7 pads file 8.\nvar Filler8_7 = 392\n\n// Filler8_8 pads file 8.\nvar Filler8_8 = 448\n\n// Filler8_9 pads file 8.\nvar Filler8_9 = 504\n\n// Filler8_10 pads file 8.\nvar Filler8_10 = 560\n\n// Filler8_11 pads file 8.\nvar Filler8_11 = 616\n\n// Filler8_12 pads file 8.\nvar Filler8_12 = 672\n\n// Filler8_13 pads file 8.\nvar Filler8_13 = 728\n\n// Filler8_14 pads file 8.\nvar Filler8_14 = 784\n\n// Filler8_15 pads file 8.\nvar Filler8_15 = 840\n\n// Filler8_16 pads file 8.\nvar Filler8_16 = 896\n\n// Filler8_17 pads file 8.\nvar Filler8_17 = 952\n\n// Filler8_18 pads file 8.\nvar Filler8_18 = 1008\n\n// Filler8_19 pads file 8.\nvar Filler8_19 = 1064\n\n// Filler8_20 pads file 8.\nvar Filler8_20 = 1120\n\n// Filler8_21 pads file 8.\nvar Filler8_21 = 1176\n\n// Filler8_22 pads file 8.\nvar Filler8_22 = 1232\n\n// Filler8_23 pads file 8.\nvar Filler8_23 = 1288\n\n// Filler8_24 pads file 8.\nvar Filler8_24 = 1344\n',
+        "filler9.go": 'package main\n\n// Filler9_1 pads file 9.\nvar Filler9_1 = 63\n\n// Filler9_2 pads file 9.\nvar Filler9_2 = 126\n\n// Filler9_3 pads file 9.\nvar Filler9_3 = 189\n\n// Filler9_4 pads file 9.\nvar Filler9_4 = 252\n\n// Filler9_5 pads file 9.\nvar Filler9_5 = 315\n\n// Filler9_6 pads file 9.\nvar Filler9_6 = 378\n\n// Filler9_7 pads file 9.\nvar Filler9_7 = 441\n\n// Filler9_8 pads file 9.\nvar Filler9_8 = 504\n\n// Filler9_9 pads file 9.\nvar Filler9_9 = 567\n\n// Filler9_10 pads file 9.\nvar Filler9_10 = 630\n\n// Filler9_11 pads file 9.\nvar Filler9_11 = 693\n\n// Filler9_12 pads file 9.\nvar Filler9_12 = 756\n\n// Filler9_13 pads file 9.\nvar Filler9_13 = 819\n\n// Filler9_14 pads file 9.\nvar Filler9_14 = 882\n\n// Filler9_15 pads file 9.\nvar Filler9_15 = 945\n\n// Filler9_16 pads file 9.\nvar Filler9_16 = 1008\n\n// Filler9_17 pads file 9.\nvar Filler9_17 = 1071\n\n// Filler9_18 pads file 9.\nvar Filler9_18 = 1134\n\n// Filler9_19 pads file 9.\nvar Filler9_19 = 1197\n\n// Filler9_20 pads file 9.\nvar Filler9_20 = 1260\n\n// Filler9_21 pads file 9.\nvar Filler9_21 = 1323\n\n// Filler9_22 pads file 9.\nvar Filler9_22 = 1386\n\n// Filler9_23 pads file 9.\nvar Filler9_23 = 1449\n\n// Filler9_24 pads file 9.\nvar Filler9_24 = 1512\n\n// Filler9_25 pads file 9.\nvar Filler9_25 = 1575\n\n// Filler9_26 pads file 9.\nvar Filler9_26 = 1638\n\n// Filler9_27 pads file 9.\nvar Filler9_27 = 1701\n',
         "wire.go": '//go:build wireinject\n\npackage main\n\nimport "github.com/google/wire"\n\nfunc InitServer() *Server {\n\twire.Build(\n\t\twire.Value(Config{\n\t\t\tHost: "localhost",\n\t\t\tPort: 8080,\n\t\t\tTags: []string{\n\t\t\t\t"a",\n\t\t\t\t"b",\n\t\t\t},\n\t\t\tExtra: map[string]int{"x": 1,\n\t\t\t\t"y": 2},\n\t\t}),\n\t\tNewServer,\n\t)\n\treturn nil\n}\n'},
     # the same with a bare identifier as the value
     "value_ident_layout": {
         "__reruns__": 24,
         "t.go": 'package main\n\ntype Config struct {\n\tHost  string\n\tPort  int\n\tTags  []string\n\tExtra map[string]int\n}\n\ntype Server struct{ C Config }\n\nfunc NewServer(c Config) *Server { return &Server{C: c} }\n\nvar defaultConfig = Config{Host: "localhost", Port: 8080, Tags: []string{"a", "b"}, Extra: map[string]int{"y": 2}}\n',
         "main.go": 'package main\n\nfunc main() { s := InitServer(); println(s.C.Host, s.C.Port, len(s.C.Tags), s.C.Extra["y"]) }\n',
-        "filler1.go": 'package main\n\n// filler 1\nvar filler1 = 1\n',
-        "filler2.go": 'package main\n\n// filler 2\nvar filler2 = 2\n',
-        "filler3.go": 'package main\n\n// filler 3\nvar filler3 = 3\n',
-        "filler4.go": 'package main\n\n// filler 4\nvar filler4 = 4\n',
-        "filler5.go": 'package main\n\n// filler 5\nvar filler5 = 5\n',
-        "filler6.go": 'package main\n\n// filler 6\nvar filler6 = 6\n',
-        "filler7.go": 'package main\n\n// filler 7\nvar filler7 = 7\n',
-        "filler8.go": 'package main\n\n// filler 8\nvar filler8 = 8\n',
-        "filler9.go": 'package main\n\n// filler 9\nvar filler9 = 9\n',
+        "filler1.go": 'package main\n\n// Filler1_1 pads file 1.\nvar Filler1_1 = 7\n\n// Filler1_2 pads file 1.\nvar Filler1_2 = 14\n\n// Filler1_3 pads file 1.\nvar Filler1_3 = 21\n',
+        "filler2.go": 'package main\n\n// Filler2_1 pads file 2.\nvar Filler2_1 = 14\n\n// Filler2_2 pads file 2.\nvar Filler2_2 = 28\n\n// Filler2_3 pads file 2.\nvar Filler2_3 = 42\n\n// Filler2_4 pads file 2.\nvar Filler2_4 = 56\n\n// Filler2_5 pads file 2.\nvar Filler2_5 = 70\n\n// Filler2_6 pads file 2.\nvar Filler2_6 = 84\n',
+        "filler3.go": 'package main\n\n// Filler3_1 pads file 3.\nvar Filler3_1 = 21\n\n// Filler3_2 pads file 3.\nvar Filler3_2 = 42\n\n// Filler3_3 pads file 3.\nvar Filler3_3 = 63\n\n// Filler3_4 pads file 3.\nvar Filler3_4 = 84\n\n// Filler3_5 pads file 3.\nvar Filler3_5 = 105\n\n// Filler3_6 pads file 3.\nvar Filler3_6 = 126\n\n// Filler3_7 pads file 3.\nvar Filler3_7 = 147\n\n// Filler3_8 pads file 3.\nvar Filler3_8 = 168\n\n// Filler3_9 pads file 3.\nvar Filler3_9 = 189\n',
+        "filler4.go": 'package main\n\n// Filler4_1 pads file 4.\nvar Filler4_1 = 28\n\n// Filler4_2 pads file 4.\nvar Filler4_2 = 56\n\n// Filler4_3 pads file 4.\nvar Filler4_3 = 84\n\n// Filler4_4 pads file 4.\nvar Filler4_4 = 112\n\n// Filler4_5 pads file 4.\nvar Filler4_5 = 140\n\n// Filler4_6 pads file 4.\nvar Filler4_6 = 168\n\n// Filler4_7 pads file 4.\nvar Filler4_7 = 196\n\n// Filler4_8 pads file 4.\nvar Filler4_8 = 224\n\n// Filler4_9 pads file 4.\nvar Filler4_9 = 252\n\n// Filler4_10 pads file 4.\nvar Filler4_10 = 280\n\n// Filler4_11 pads file 4.\nvar Filler4_11 = 308\n\n// Filler4_12 pads file 4.\nvar Filler4_12 = 336\n',
+        "filler5.go": 'package main\n\n// Filler5_1 pads file 5.\nvar Filler5_1 = 35\n\n// Filler5_2 pads file 5.\nvar Filler5_2 = 70\n\n// Filler5_3 pads file 5.\nvar Filler5_3 = 105\n\n// Filler5_4 pads file 5.\nvar Filler5_4 = 140\n\n// Filler5_5 pads file 5.\nvar Filler5_5 = 175\n\n// Filler5_6 pads file 5.\nvar Filler5_6 = 210\n\n// Filler5_7 pads file 5.\nvar Filler5_7 = 245\n\n// Filler5_8 pads file 5.\nvar Filler5_8 = 280\n\n// Filler5_9 pads file 5.\nvar Filler5_9 = 315\n\n// Filler5_10 pads file 5.\nvar Filler5_10 = 350\n\n// Filler5_11 pads file 5.\nvar Filler5_11 = 385\n\n// Filler5_12 pads file 5.\nvar Filler5_12 = 420\n\n// Filler5_13 pads file 5.\nvar Filler5_13 = 455\n\n// Filler5_14 pads file 5.\nvar Filler5_14 = 490\n\n// Filler5_15 pads file 5.\nvar Filler5_15 = 525\n',
+        "filler6.go": 'package main\n\n// Filler6_1 pads file 6.\nvar Filler6_1 = 42\n\n// Filler6_2 pads file 6.\nvar Filler6_2 = 84\n\n// Filler6_3 pads file 6.\nvar Filler6_3 = 126\n\n// Filler6_4 pads file 6.\nvar Filler6_4 = 168\n\n// Filler6_5 pads file 6.\nvar Filler6_5 = 210\n\n// Filler6_6 pads file 6.\nvar Filler6_6 = 252\n\n// Filler6_7 pads file 6.\nvar Filler6_7 = 294\n\n// Filler6_8 pads file 6.\nvar Filler6_8 = 336\n\n// Filler6_9 pads file 6.\nvar Filler6_9 = 378\n\n// Filler6_10 pads file 6.\nvar Filler6_10 = 420\n\n// Filler6_11 pads file 6.\nvar Filler6_11 = 462\n\n// Filler6_12 pads file 6.\nvar Filler6_12 = 504\n\n// Filler6_13 pads file 6.\nvar Filler6_13 = 546\n\n// Filler6_14 pads file 6.\nvar Filler6_14 = 588\n\n// Filler6_15 pads file 6.\nvar Filler6_15 = 630\n\n// Filler6_16 pads file 6.\nvar Filler6_16 = 672\n\n// Filler6_17 pads file 6.\nvar Filler6_17 = 714\n\n// Filler6_18 pads file 6.\nvar Filler6_18 = 756\n',
+        "filler7.go": 'package main\n\n// Filler7_1 pads file 7.\nvar Filler7_1 = 49\n\n// Filler7_2 pads file 7.\nvar Filler7_2 = 98\n\n// Filler7_3 pads file 7.\nvar Filler7_3 = 147\n\n// Filler7_4 pads file 7.\nvar Filler7_4 = 196\n\n// Filler7_5 pads file 7.\nvar Filler7_5 = 245\n\n// Filler7_6 pads file 7.\nvar Filler7_6 = 294\n\n// Filler7_7 pads file 7.\nvar Filler7_7 = 343\n\n// Filler7_8 pads file 7.\nvar Filler7_8 = 392\n\n// Filler7_9 pads file 7.\nvar Filler7_9 = 441\n\n// Filler7_10 pads file 7.\nvar Filler7_10 = 490\n\n// Filler7_11 pads file 7.\nvar Filler7_11 = 539\n\n// Filler7_12 pads file 7.\nvar Filler7_12 = 588\n\n// Filler7_13 pads file 7.\nvar Filler7_13 = 637\n\n// Filler7_14 pads file 7.\nvar Filler7_14 = 686\n\n// Filler7_15 pads file 7.\nvar Filler7_15 = 735\n\n// Filler7_16 pads file 7.\nvar Filler7_16 = 784\n\n// Filler7_17 pads file 7.\nvar Filler7_17 = 833\n\n// Filler7_18 pads file 7.\nvar Filler7_18 = 882\n\n// Filler7_19 pads file 7.\nvar Filler7_19 = 931\n\n// Filler7_20 pads file 7.\nvar Filler7_20 = 980\n\n// Filler7_21 pads file 7.\nvar Filler7_21 = 1029\n',
+        "filler8.go": 'package main\n\n// Filler8_1 pads file 8.\nvar Filler8_1 = 56\n\n// Filler8_2 pads file 8.\nvar Filler8_2 = 112\n\n// Filler8_3 pads file 8.\nvar Filler8_3 = 168\n\n// Filler8_4 pads file 8.\nvar Filler8_4 = 224\n\n// Filler8_5 pads file 8.\nvar Filler8_5 = 280\n\n// Filler8_6 pads file 8.\nvar Filler8_6 = 336\n\n// Filler8_7 pads file 8.\nvar Filler8_7 = 392\n\n// Filler8_8 pads file 8.\nvar Filler8_8 = 448\n\n// Filler8_9 pads file 8.\nvar Filler8_9 = 504\n\n// Filler8_10 pads file 8.\nvar Filler8_10 = 560\n\n// Filler8_11 pads file 8.\nvar Filler8_11 = 616\n\n// Filler8_12 pads file 8.\nvar Filler8_12 = 672\n\n// Filler8_13 pads file 8.\nvar Filler8_13 = 728\n\n// Filler8_14 pads file 8.\nvar Filler8_14 = 784\n\n// Filler8_15 pads file 8.\nvar Filler8_15 = 840\n\n// Filler8_16 pads file 8.\nvar Filler8_16 = 896\n\n// Filler8_17 pads file 8.\nvar Filler8_17 = 952\n\n// Filler8_18 pads file 8.\nvar Filler8_18 = 1008\n\n// Filler8_19 pads file 8.\nvar Filler8_19 = 1064\n\n// Filler8_20 pads file 8.\nvar Filler8_20 = 1120\n\n// Filler8_21 pads file 8.\nvar Filler8_21 = 1176\n\n// Filler8_22 pads file 8.\nvar Filler8_22 = 1232\n\n// Filler8_23 pads file 8.\nvar Filler8_23 = 1288\n\n// Filler8_24 pads file 8.\nvar Filler8_24 = 1344\n',
+        "filler9.go": 'package main\n\n// Filler9_1 pads file 9.\nvar Filler9_1 = 63\n\n// Filler9_2 pads file 9.\nvar Filler9_2 = 126\n\n// Filler9_3 pads file 9.\nvar Filler9_3 = 189\n\n// Filler9_4 pads file 9.\nvar Filler9_4 = 252\n\n// Filler9_5 pads file 9.\nvar Filler9_5 = 315\n\n// Filler9_6 pads file 9.\nvar Filler9_6 = 378\n\n// Filler9_7 pads file 9.\nvar Filler9_7 = 441\n\n// Filler9_8 pads file 9.\nvar Filler9_8 = 504\n\n// Filler9_9 pads file 9.\nvar Filler9_9 = 567\n\n// Filler9_10 pads file 9.\nvar Filler9_10 = 630\n\n// Filler9_11 pads file 9.\nvar Filler9_11 = 693\n\n// Filler9_12 pads file 9.\nvar Filler9_12 = 756\n\n// Filler9_13 pads file 9.\nvar Filler9_13 = 819\n\n// Filler9_14 pads file 9.\nvar Filler9_14 = 882\n\n// Filler9_15 pads file 9.\nvar Filler9_15 = 945\n\n// Filler9_16 pads file 9.\nvar Filler9_16 = 1008\n\n// Filler9_17 pads file 9.\nvar Filler9_17 = 1071\n\n// Filler9_18 pads file 9.\nvar Filler9_18 = 1134\n\n// Filler9_19 pads file 9.\nvar Filler9_19 = 1197\n\n// Filler9_20 pads file 9.\nvar Filler9_20 = 1260\n\n// Filler9_21 pads file 9.\nvar Filler9_21 = 1323\n\n// Filler9_22 pads file 9.\nvar Filler9_22 = 1386\n\n// Filler9_23 pads file 9.\nvar Filler9_23 = 1449\n\n// Filler9_24 pads file 9.\nvar Filler9_24 = 1512\n\n// Filler9_25 pads file 9.\nvar Filler9_25 = 1575\n\n// Filler9_26 pads file 9.\nvar Filler9_26 = 1638\n\n// Filler9_27 pads file 9.\nvar Filler9_27 = 1701\n',
         "wire.go": '//go:build wireinject\n\npackage main\n\nimport "github.com/google/wire"\n\nfunc InitServer() *Server {\n\twire.Build(\n\t\twire.Value(defaultConfig),\n\t\tNewServer,\n\t)\n\treturn nil\n}\n'},
     # an unnamed import whose package name is not the last path element (repaired: its import was omitted)
     "import_name_not_last_element": {
@@ -891,6 +891,12 @@ DIRECTED = {
         "t.go": 'package main\n\nimport "vscratch/NAME/go-conf"\n\ntype App struct{ C *conf.Conf }\n\nfunc NewApp(c *conf.Conf) *App { return &App{C: c} }\n',
         "main.go": 'package main\n\nfunc main() { println(InitApp().C.S) }\n',
         "wire.go": '//go:build wireinject\n\npackage main\n\nimport (\n\t"github.com/google/wire"\n\n\t"vscratch/NAME/go-conf"\n)\n\nfunc InitApp() *App {\n\twire.Build(conf.NewConf, NewApp)\n\treturn nil\n}\n'},
+    # an unnamed import ".../lib/v2" (package lib) next to a VARIABLE called v2: v2.Addr is the variable's field
+    "variable_named_like_path_element": {
+        "lib/v2/lib.go": 'package lib\n\ntype Client struct{ S string }\n\nfunc NewClient() *Client { return &Client{S: "c"} }\n',
+        "t.go": 'package main\n\nimport "vscratch/NAME/lib/v2"\n\ntype Addr string\n\nvar v2 = struct{ Addr Addr }{Addr: "addr"}\n\ntype App struct {\n\tC *lib.Client\n\tA Addr\n}\n\nfunc NewApp(c *lib.Client, a Addr) *App { return &App{c, a} }\n',
+        "main.go": 'package main\n\nfunc main() { a := InitApp(); println(a.C.S, string(a.A)) }\n',
+        "wire.go": '//go:build wireinject\n\npackage main\n\nimport (\n\t"github.com/google/wire"\n\n\t"vscratch/NAME/lib/v2"\n)\n\nfunc InitApp() *App {\n\twire.Build(lib.NewClient, wire.Value(v2.Addr), NewApp)\n\treturn nil\n}\n'},
     # wire.Struct(new(T)) without field names fills no field (repaired: it was migrated as "*")
     "struct_no_field_names": {
         "t.go": 'package main\n\ntype Host string\n\ntype Config struct{ Host Host }\n\nfunc ProvideHost() Host { return "h" }\n\ntype App struct {\n\tC *Config\n\tH Host\n}\n\nfunc NewApp(c *Config, h Host) *App { return &App{c, h} }\n',
